@@ -390,7 +390,8 @@ func c05Scenarios(tier string) []engine.Scenario {
 		method   string
 		login    bool
 	}
-	vs := []v{{"v10s-get", 10 * time.Second, "GET", false}}
+	// (a negative validity period: every token is born expired)
+	vs := []v{{"v10s-get", 10 * time.Second, "GET", false}, {"v-negative-get", -time.Second, "GET", true}}
 	if tier == "thorough" {
 		vs = append(vs, v{"v24h-post", 24 * time.Hour, "POST", false}, v{"v10s-get-login", 10 * time.Second, "GET", true})
 	} else {
